@@ -509,6 +509,9 @@ func EnvRuns(opts vsched.Options, body func(), after func(choices []int32)) int 
 			vsched.InternalError("EnvRuns: sequential body ended with verdict %s %s", ex.Verdict, ex.Crash)
 		}
 		n++
+		if n%2000 == 0 && os.Getenv("HX_DEBUG") != "" {
+			fmt.Fprintf(os.Stderr, "DEBUG EnvRuns n=%d stack=%d points=%d choices=%v\n", n, len(stack), len(ex.Points), ex.Choices)
+		}
 		after(ex.Choices)
 		for i := len(prefix); i < len(ex.Points); i++ {
 			for alt := ex.Points[i].N - 1; alt >= 1; alt-- {
